@@ -67,6 +67,12 @@ type spec struct {
 	Assumptions  []string
 	InstrPkgs    []string
 	ChunkTimeout time.Duration
+	// ExtraRequire lists module requirements ("path version") appended to the
+	// scratch go.mod (which is /repo's go.mod) before anything is loaded or
+	// built, for harnesses that import a module golang.org/x/crypto does not
+	// depend on. The module must be in the local module cache (GOPROXY=off);
+	// go.sum lines are added by the go command under -mod=mod.
+	ExtraRequire []string
 }
 
 var sshPkgs = []string{"./ssh", "./ssh/agent", "./verifh/..."}
@@ -208,6 +214,21 @@ func build(sp *spec, scratch string, verbose bool) string {
 	if err := copyTree(filepath.Join(verifDir, "overlay"), scratch, func(rel string, d fs.DirEntry) bool { return rel == "go.mod" }); err != nil {
 		die2("copy overlay: %v", err)
 	}
+	if len(sp.ExtraRequire) > 0 {
+		gm := filepath.Join(scratch, "go.mod")
+		b, err := os.ReadFile(gm)
+		if err != nil {
+			die2("scratch go.mod: %v", err)
+		}
+		b = append(b, "\nrequire (\n"...)
+		for _, r := range sp.ExtraRequire {
+			b = append(b, "\t"+r+"\n"...)
+		}
+		b = append(b, ")\n"...)
+		if err := os.WriteFile(gm, b, 0o644); err != nil {
+			die2("scratch go.mod: %v", err)
+		}
+	}
 	env := goEnv()
 	instr := filepath.Join(verifDir, "bin", "instr")
 	if _, err := os.Stat(instr); err != nil {
@@ -219,6 +240,17 @@ func build(sp *spec, scratch string, verbose bool) string {
 	if pk == nil {
 		pk = sshPkgs
 	}
+	// "./verifh/..." stands for the shared harness packages plus this check's
+	// own harness, so that one harness cannot break the build of another
+	var expanded []string
+	for _, p := range pk {
+		if p == "./verifh/..." {
+			expanded = append(expanded, "./verifh/core", "./verifh/simnet", "./verifh/pktnet", "./verifh/wiremon", "./verifh/sshsim", "./verifh/"+sp.Harness)
+		} else {
+			expanded = append(expanded, p)
+		}
+	}
+	pk = expanded
 	if len(pk) > 0 {
 		out, err := run(scratch, env, instr, append([]string{scratch}, pk...)...)
 		if err != nil {
